@@ -12,7 +12,8 @@ Only a narrow, fixed subset of Rust is understood: `enum` variant lists and `mat
 `Pat | Pat => expr,` with path patterns.  When the source no longer has that shape the translator reports
 `unrecognised` (exit 3) and writes nothing: that is NOT a violation, the behavioural tie (exhaustive token-kind
 sequences, all code points) still decides; the check records the fact in its evidence.
-usage: translate.py [--out FILE] [--src DIR]      exit 0 = written/unchanged, 3 = source shape not recognised
+usage: translate.py [--outdir DIR] [--src DIR]      exit 0 = written/unchanged, 3 = some source shape not recognised
+(prints one line per generated file: `<Name>: written|unchanged|unrecognised: why`)
 """
 import re, sys, os
 
@@ -74,16 +75,43 @@ def split_top(s, sep):
     if cur.strip(): out.append(cur)
     return out
 
+def split_arms(inner):
+    """arms of a match body: `pat => expr,` or `pat => { block }` (no comma needed after a block)"""
+    arms, j, n = [], 0, len(inner)
+    while j < n:
+        # pattern: up to the top-level `=>`
+        depth, k = 0, j
+        while k < n and not (depth == 0 and inner[k:k + 2] == '=>'):
+            c = inner[k]
+            if c == "'" and k + 2 < n and (inner[k + 2] == "'" or inner[k + 1] == '\\'):
+                k += 4 if inner[k + 1] == '\\' else 3; continue
+            if c == '"':
+                k += 1
+                while inner[k] != '"': k += 2 if inner[k] == '\\' else 1
+            if c in '([{': depth += 1
+            if c in ')]}': depth -= 1
+            k += 1
+        if k >= n:
+            if inner[j:].strip(): raise Unrecognised(f'arm without =>: {inner[j:].strip()[:40]}')
+            break
+        pat = inner[j:k]; k += 2
+        while k < n and inner[k].isspace(): k += 1
+        if k < n and inner[k] == '{':
+            blk = block_after(inner, k); expr = blk; k = inner.index('{', k) + len(blk) + 2
+            while k < n and (inner[k].isspace() or inner[k] == ','): k += 1
+        else:
+            rest = split_top(inner[k:], ',')
+            expr = rest[0] if rest else ''
+            k += len(expr) + 1
+        arms.append((pat, expr))
+        j = k
+    return arms
+
 def match_arms(body, scrutinee_re=r'[^{]*'):
     m = re.search(r'\bmatch\s+' + scrutinee_re + r'\{', body)
     if not m: raise Unrecognised('no match expression')
     inner = block_after(body, m.end() - 1)
-    arms = []
-    for a in split_top(inner, ','):
-        if '=>' not in a: raise Unrecognised(f'arm without =>: {a.strip()[:40]}')
-        pat, expr = a.split('=>', 1)
-        arms.append(([p.strip() for p in split_top(pat, '|')], ' '.join(expr.split())))
-    return arms
+    return [([p.strip() for p in split_top(pat, '|')], ' '.join(expr.split())) for pat, expr in split_arms(inner)]
 
 def lc(n): return n[0].lower() + n[1:]
 
@@ -251,19 +279,196 @@ def translate(src):
             'import SlacModel.Token\nset_option autoImplicit false\nnamespace Slac.Generated.Grammar\nvariable {N : Type}\n\n')
     return head + '\n'.join(out) + '\n\nend Slac.Generated.Grammar\n'
 
+# ---------------------------------------------------------------------------------------------------------------
+# second part: operator semantics tables of src/value.rs and src/interpreter.rs -> Generated/Semantics.lean
+
+KIND = {'Boolean': 'bool', 'String': 'str', 'Number': 'num', 'Array': 'arr'}
+
+def val_pat(p, names):
+    """(Value::K(x), Value::K(y)) / Value::K(x) / _  ->  Lean pattern; bound variables renamed a, b"""
+    p = p.strip()
+    if p == '_': return None
+    parts = split_top(p[1:-1], ',') if p.startswith('(') else [p]
+    out = []
+    for i, q in enumerate(parts):
+        q = q.strip()
+        m = re.fullmatch(r'(?:Value|Self)::(\w+)\((\w+)\)', q)
+        if not m or m.group(1) not in KIND: raise Unrecognised(f'value pattern {q}')
+        out.append(f'.{KIND[m.group(1)]} {"ab"[i]}'); names[m.group(2)] = 'ab'[i]
+    return out
+
+def norm_expr(e, names):
+    for k, v in names.items(): e = re.sub(r'\b' + re.escape(k) + r'\b', v, e)
+    return ' '.join(e.split())
+
+ARITH = {'+': 'add', '-': 'sub', '*': 'mul', '/': 'div', '%': 'rem'}
+def val_expr(e):
+    m = re.fullmatch(r'Ok\(Value::Number\(a ([-+*/%]) b\)\)', e)
+    if m: return f'.ok (.num (NumOps.{ARITH[m.group(1)]} a b))'
+    fixed = {'Ok(Value::String(a + &b))': '.ok (.str (a ++ b))', 'Ok(Value::Array([a, b].concat()))': '.ok (.arr (a ++ b))',
+             'Ok(Value::Boolean(a ^ b))': '.ok (.bool (a != b))', 'Ok(Value::Number((a / b).trunc()))': '.ok (.num (NumOps.trunc (NumOps.div a b)))',
+             'Ok(Value::Number(-a))': '.ok (.num (NumOps.neg a))'}
+    if e in fixed: return fixed[e]
+    m = re.fullmatch(r'Err\(Error::Invalid(Binary|Unary)Operator\(Operator::(\w+)\)\)', e)
+    if m: return f'.error (.invalid{m.group(1)} .{lc(m.group(2))})'
+    raise Unrecognised(f'value expression {e}')
+
+def value_fn(value_src, header_re, fn, lean_name, binary, doc):
+    m = re.search(header_re, value_src)
+    if not m: raise Unrecognised(f'{header_re} not found')
+    body = fn_body(value_src[m.end():], fn) if header_re else fn_body(value_src, fn)
+    arms = match_arms(body)
+    out = [f'/-- {doc} -/', f'def {lean_name} [NumOps N] : ' + ('Value N → Value N' if binary else 'Value N') + ' → Except Err (Value N)']
+    for pats, e in arms:
+        for p in pats:
+            names = {}
+            lp = val_pat(p, names)
+            lhs = (', '.join(lp) if lp else ('_, _' if binary else '_'))
+            out.append(f'  | {lhs} => {val_expr(norm_expr(e, names))}')
+    return out
+
+def translate_semantics(src):
+    rd = lambda f: strip_comments(open(os.path.join(src, f)).read())
+    value, interp = rd('value.rs').split('#[cfg(test)]')[0], rd('interpreter.rs').split('#[cfg(test)]')[0]
+    out = []
+    for trait, fn, lean, binary in (('Neg', 'neg', 'valueNeg', False), ('Add', 'add', 'valueAdd', True), ('Sub', 'sub', 'valueSub', True),
+                                    ('Mul', 'mul', 'valueMul', True), ('Div', 'div', 'valueDiv', True), ('Rem', 'rem', 'valueRem', True),
+                                    ('BitXor', 'bitxor', 'valueXor', True)):
+        out += value_fn(value, r'impl\s+' + trait + r'\s+for\s+Value\b', fn, lean, binary, f'`impl {trait} for Value` (src/value.rs)')
+    out += value_fn(value, r'impl\s+Value\s*\{', 'div_int', 'valueDivInt', True, '`Value::div_int` (src/value.rs)')
+    nb = ' '.join(fn_body(value[re.search(r'impl\s+Not\s+for\s+Value\b', value).end():], 'not').split())
+    if nb != 'Ok(Value::Boolean(!self.as_bool()))': raise Unrecognised(f'Not::not body {nb}')
+    out += ['/-- `impl Not for Value`: `Ok(Value::Boolean(!self.as_bool()))` -/', 'def valueNot [NumOps N] (v : Value N) : Except Err (Value N) := .ok (.bool (!Value.asBool v))']
+    # ordinal / empty
+    arms = match_arms(fn_body(value, 'ordinal'))
+    out += ['/-- `Value::ordinal` -/', 'def valueOrdinal : Value N → Nat']
+    for pats, e in arms:
+        for p in pats:
+            m = re.fullmatch(r'Value::(\w+)\(_\)', p)
+            if not m or not e.isdigit(): raise Unrecognised(f'ordinal arm {p} => {e}')
+            out.append(f'  | .{KIND[m.group(1)]} _ => {e}')
+    arms = match_arms(fn_body(value, 'empty'))
+    emp = {'Value::Boolean(false)': '.bool false', 'Value::String(String::new())': '.str []', 'Value::Number(0.0)': '.num NumOps.zero', 'Value::Array(vec![])': '.arr []'}
+    out += ['/-- `Value::empty` -/', 'def valueEmpty [NumOps N] : Value N → Value N']
+    for pats, e in arms:
+        for p in pats:
+            m = re.fullmatch(r'Value::(\w+)\(_\)', p)
+            if not m or e not in emp: raise Unrecognised(f'empty arm {p} => {e}')
+            out.append(f'  | .{KIND[m.group(1)]} _ => {emp[e]}')
+    # interpreter: unary dispatch
+    ub = fn_body(interp, 'unary')
+    if not re.search(r'let right = self\.expression\(right\)\?;', ub): raise Unrecognised('unary(): operand is not evaluated first with `?`')
+    arms = match_arms(ub)
+    un = {'-right': 'valueNeg v', '!right': 'valueNot v'}
+    out += ['/-- the `match operator` of `TreeWalkingInterpreter::unary`, entered only after the operand evaluated to a value `v` -/',
+            'def unaryDispatch [NumOps N] (op : Op) (v : Value N) : Except Err (Value N) :=', '  match op with']
+    for pats, e in arms:
+        for p in pats:
+            if p == '_':
+                if e != 'Err(Error::InvalidUnaryOperator(operator))': raise Unrecognised(f'unary default {e}')
+                out.append('  | op => .error (.invalidUnary op)')
+            else:
+                m = re.fullmatch(r'Operator::(\w+)', p)
+                if not m or e not in un: raise Unrecognised(f'unary arm {p} => {e}')
+                out.append(f'  | .{lc(m.group(1))} => {un[e]}')
+    # interpreter: strict binary dispatch (the inner `match (operator, right)`)
+    bb = fn_body(interp, 'binary')
+    mi = re.search(r'let right = self\.expression\(right\);\s*match\s*\(operator,\s*right\)\s*\{', bb)
+    if not mi: raise Unrecognised('binary(): inner match (operator, right)')
+    inner = block_after(bb, mi.end() - 1)
+    strict = {'left + right': 'valueAdd l r', 'left - right': 'valueSub l r', 'left * right': 'valueMul l r', 'left / right': 'valueDiv l r',
+              'left.div_int(right)': 'valueDivInt l r', 'left % right': 'valueRem l r', 'left ^ right': 'valueXor l r',
+              'Ok(Value::Boolean(left > right))': '.ok (.bool (Value.gt l r))', 'Ok(Value::Boolean(left >= right))': '.ok (.bool (Value.ge l r))',
+              'Ok(Value::Boolean(left < right))': '.ok (.bool (Value.lt l r))', 'Ok(Value::Boolean(left <= right))': '.ok (.bool (Value.le l r))',
+              'Ok(Value::Boolean(left == right))': '.ok (.bool (Value.eq l r))', 'Ok(Value::Boolean(left != right))': '.ok (.bool (!Value.eq l r))'}
+    out += ['/-- the arms `(Operator::X, Ok(right)) => …` of the inner match of `TreeWalkingInterpreter::binary`: both operands are values -/',
+            'def strictDispatch [NumOps N] (op : Op) (l r : Value N) : Except Err (Value N) :=', '  match op with']
+    undef_right = {}
+    seen_default = False
+    for pat, e in split_arms(inner):
+        pat = ' '.join(pat.split()); e = ' '.join(e.split())
+        m = re.fullmatch(r'\(Operator::(\w+), Ok\(right\)\)', pat)
+        if m:
+            if e not in strict: raise Unrecognised(f'strict arm {e}')
+            out.append(f'  | .{lc(m.group(1))} => {strict[e]}'); continue
+        m = re.fullmatch(r'\(Operator::(\w+), Err\(Error::UndefinedVariable\(_\)\)\)', pat)
+        if m: undef_right[m.group(1)] = e; continue
+        if pat == '(_, Err(right))' and e == 'Err(right)': continue
+        if pat == '(operator, _)' and e == 'Err(Error::InvalidBinaryOperator(operator))': seen_default = True; continue
+        raise Unrecognised(f'binary inner arm {pat} => {e}')
+    if not seen_default: raise Unrecognised('binary(): no InvalidBinaryOperator default')
+    out.append('  | op => .error (.invalidBinary op)')
+    ur = {'Ok(Value::Boolean(left.is_empty()))': '.ok (.bool (Value.isEmpty l))', 'Ok(Value::Boolean(!left.is_empty()))': '.ok (.bool (!Value.isEmpty l))'}
+    out += ['/-- the arms `(Operator::X, Err(UndefinedVariable))` of the inner match: left is a value, right is undefined -/',
+            'def undefinedRight [NumOps N] (op : Op) (l : Value N) : Option (Except Err (Value N)) :=', '  match op with']
+    for k, e in undef_right.items():
+        if e not in ur: raise Unrecognised(f'undefined-right arm {e}')
+        out.append(f'  | .{lc(k)} => some ({ur[e]})')
+    out.append('  | _ => none')
+    # interpreter: the OUTER match of binary (short circuit, undefined operands, error propagation), in source order
+    mo = re.search(r'let left = self\.expression\(left\);\s*match\s*\(operator,\s*left\)\s*\{', bb)
+    if not mo: raise Unrecognised('binary(): outer match (operator, left)')
+    outer = block_after(bb, mo.end() - 1)
+    def und(neg, both):
+        t = 'match self.expression(right) { Ok(right) => Ok(Value::Boolean(%sright.is_empty())), Err(Error::UndefinedVariable(_)) => Ok(Value::Boolean(%s)), Err(right) => Err(right), }'
+        return t % ('!' if neg else '', 'true' if both else 'false')
+    acts = {'self.boolean::<true>(&left, right)': '.boolean true', 'self.boolean::<false>(&left, right)': '.boolean false',
+            'self.boolean::<true>(&Value::Boolean(false), right)': '.booleanOn true (.bool false)', 'self.boolean::<false>(&Value::Boolean(false), right)': '.booleanOn false (.bool false)',
+            'self.boolean::<true>(&Value::Boolean(true), right)': '.booleanOn true (.bool true)', 'self.boolean::<false>(&Value::Boolean(true), right)': '.booleanOn false (.bool true)',
+            'Ok(Value::Boolean(false))': '.const false', 'Ok(Value::Boolean(true))': '.const true', 'Err(left)': '.propagate'}
+    for neg in (False, True):
+        for both in (False, True): acts[und(neg, both)] = f'.undefLeft {str(neg).lower()} {str(both).lower()}'
+    out += ['/-- what an arm of the OUTER `match (operator, left)` of `binary` does -/',
+            'inductive Outer (N : Type) | boolean (full : Bool) | booleanOn (full : Bool) (v : Value N) | const (b : Bool) | strict | undefLeft (negate bothUndefined : Bool) | propagate',
+            '/-- the outer match, arm by arm in source order; second argument: 0 = left is a value, 1 = left is undefined, 2 = left is another error -/',
+            'def outerDispatch : Op → Nat → Outer N']
+    for pat, e in split_arms(outer):
+        pat = ' '.join(pat.split()); e = ' '.join(e.split())
+        m = re.fullmatch(r'\((Operator::(\w+)|_), (Ok\(left\)|Err\(Error::UndefinedVariable\(_\)\)|Err\(left\))\)', pat)
+        if not m: raise Unrecognised(f'binary outer pattern {pat}')
+        lop = '.' + lc(m.group(2)) if m.group(2) else '_'
+        lk = {'Ok(left)': '0', 'Err(Error::UndefinedVariable(_))': '1', 'Err(left)': '_'}[m.group(3)]
+        if 'match (operator, right)' in e and e.startswith('let right = self.expression(right);'): act = '.strict'
+        elif e in acts: act = acts[e]
+        else: raise Unrecognised(f'binary outer arm {pat} => {e[:80]}')
+        if act == '.propagate' and lk == '0': raise Unrecognised('propagate on a value')
+        out.append(f'  | {lop}, {lk} => {act}')
+    if not out[-1].startswith('  | _, _ =>'): out.append('  | _, _ => .propagate')
+    bo = ' '.join(fn_body(interp, 'boolean').split())
+    expect = ('let left = left.as_bool(); if left == FULL_EVAL { match self.expression(right) { Ok(right) => Ok(Value::Boolean(right.as_bool())), '
+              'Err(Error::UndefinedVariable(_)) => Ok(Value::Boolean(false)), Err(error) => Err(error), } } else { Ok(Value::Boolean(left)) }')
+    if bo != expect: raise Unrecognised('boolean::<FULL_EVAL>() body differs from the recognised text')
+    out += ['/-- `boolean::<FULL_EVAL>` has the recognised body: evaluate the right operand iff `left.as_bool() == FULL_EVAL`; a value gives its',
+            '    `as_bool`, an undefined variable gives `false`, another error propagates; otherwise the result is `left.as_bool()` -/', 'def booleanBodyRecognised : Bool := true']
+    # ternary
+    tb = fn_body(interp, 'ternary')
+    arms = match_arms(tb)
+    ops = [p for pats, e in arms for p in pats if p != '_']
+    if len(ops) != 1 or not re.fullmatch(r'Operator::(\w+)', ops[0]): raise Unrecognised('ternary(): operator arms')
+    out += ['/-- the only operator `TreeWalkingInterpreter::ternary` accepts -/', f'def ternaryOperator : Op := .{lc(ops[0][10:])}']
+    head = ('/-\n  SlacModel.Generated.Semantics — GENERATED on every check run by /verif/tools/translate.py from the CURRENT text of\n'
+            '  /repo/src/value.rs and interpreter.rs (operator arms only).  Do not edit.  SlacProps/C03Source.lean proves that the\n'
+            '  hand-written model (Value.add, Value.arith, Value.xor, Value.neg, binVal, unModel, …) is these tables.\n-/\n'
+            'import SlacModel.Value\nset_option autoImplicit false\nnamespace Slac.Generated.Semantics\nvariable {N : Type}\n\n')
+    return head + '\n'.join(out) + '\n\nend Slac.Generated.Semantics\n'
+
 def main():
     a = sys.argv[1:]
-    out = a[a.index('--out') + 1] if '--out' in a else '/verif/lean/SlacModel/Generated/Grammar.lean'
+    outdir = a[a.index('--outdir') + 1] if '--outdir' in a else '/verif/lean/SlacModel/Generated'
     src = a[a.index('--src') + 1] if '--src' in a else '/repo/src'
-    try:
-        text = translate(src)
-    except Unrecognised as e:
-        print(f'unrecognised: {e}'); sys.exit(3)
-    except (OSError, IndexError, KeyError) as e:
-        print(f'unrecognised: {type(e).__name__} {e}'); sys.exit(3)
-    if not os.path.exists(out) or open(out).read() != text:
-        open(out, 'w').write(text); print('written')
-    else: print('unchanged')
+    rc = 0
+    for name, fn in (('Grammar', translate), ('Semantics', translate_semantics)):
+        out = os.path.join(outdir, name + '.lean')
+        try:
+            text = fn(src)
+        except Unrecognised as e:
+            print(f'{name}: unrecognised: {e}'); rc = 3; continue
+        except (OSError, IndexError, KeyError, AttributeError) as e:
+            print(f'{name}: unrecognised: {type(e).__name__} {e}'); rc = 3; continue
+        if not os.path.exists(out) or open(out).read() != text:
+            open(out, 'w').write(text); print(f'{name}: written')
+        else: print(f'{name}: unchanged')
+    sys.exit(rc)
 
 if __name__ == '__main__':
     main()
